@@ -125,10 +125,11 @@ func (m *MessageStore) ProcessMessageQueueForDevicePK(ctx context.Context, devic
 			m.logger.Error("unable to process message, unmarshal of device pk failed", logutil.PrivateBinary("devicepk", devicePK))
 		} else if device.hasKnownChainKey = m.secretStore.IsChainKeyKnownForDevice(ctx, m.groupPublicKey, devicePublicKey); !device.hasKnownChainKey {
 			m.logger.Error("unable to process message, no secret found for device pk", logutil.PrivateBinary("devicepk", devicePK))
-		} else if next := device.queue.Next(); next != nil {
-			// let's try processing one message from the queue.
-			// if it succeeds, the whole queue should be added for processing.
-			m.messagesQueue.Add(next)
+		} else {
+			// retry every parked message: the oldest ones may have been sealed before the chain
+			// key was shared with us and never open, which must not keep the later ones parked.
+			// the ones that still do not open are parked again by the process loop.
+			m.processDeviceMessagesInQueue(device)
 		}
 	}
 	m.muDeviceCaches.Unlock()
